@@ -334,6 +334,8 @@ class Interp(object):
                 ops.append("E")
             if self.shard.get("unentered"):
                 ops.append("U")
+            if self.shard.get("handling") and depth < self.max_depth:
+                ops.append("K")
             if self.allow_raise:
                 for j in range(1, depth + 1):
                     ops.append(("R", j))
@@ -354,6 +356,14 @@ class Interp(object):
                 self.do_reenter(depth)  # no new action level: raise(j) still counts enclosing actions
             elif op == "U":
                 self.do_unentered()
+            elif op == "K":
+                # the following block runs while an unrelated, already caught exception is being
+                # handled (clean-up / rollback code): sys.exc_info() is not empty in there
+                self.ops.append("K(")
+                try:
+                    raise LookupError("already handled, unrelated")
+                except LookupError:
+                    self.block(depth)
             else:
                 self.n += 1
                 e = _mk_exc(self.style("exc", N_EXC), self.n)
